@@ -328,6 +328,9 @@ def check(case, ctx):
         if [tuple(t) for t in g.triples] != want:
             ctx.fail('constructor did not keep the triples in order with colon-normalised roles', expected=want, observed=g.triples)
             return
+        if (_explicit_top(g) is None) != (case['top'] is None):
+            ctx.fail('a graph built without a top must have an implicit top (and vice versa)', expected=case['top'], observed=_explicit_top(g))
+            return
         if not query_laws(g, ctx):
             return
         ctx.validated += 1
